@@ -194,7 +194,7 @@ class _P:
             return 'ring-closure-misplaced'
         if c == ']':
             return 'bracket-close'
-        return 'bad-char'
+        return 'bad-char:' + (c if c.isprintable() and not c.isspace() else repr(c))
 
     # chain ::= branched_atom ( (bond? | dot) branched_atom )*
     def chain(self, prev, sym):
